@@ -1,7 +1,7 @@
 (* C18 property theorems ONLY (each closed by an already proved lemma or by exhaustive computation over the
    descriptions regenerated from the current sources: Gen/Structs.v from src/*.h, Gen/PyMirror.v from rebound/**/*.py). *)
 From Coq Require Import ZArith String List Bool Arith.
-From RV Require Import C18.Types C18.Model C18.Tables C18.Proofs Gen.Structs Gen.PyMirror.
+From RV Require Import C18.Types C18.Model C18.Tables C18.Proofs Gen.Structs Gen.PyMirror Gen.DocOptions.
 Import ListNotations.
 Open Scope Z_scope.
 
@@ -122,6 +122,30 @@ Theorem C18_setter_matches_getter :
   unguarded_loop_exits py_loop_exits = [] /\ search_mismatch py_loop_search = [].
 Proof. vm_compute. repeat split; reflexivity. Qed.
 Print Assumptions C18_setter_matches_getter.
+
+(* Callbacks: every CFUNCTYPE alias a setter wraps a python callable with (AFF, CORFF, COLRFF, FPA, ODEDER, MERCURIUSLF,
+   TRACEKF, TRACECF, ...) has the return type, argument count and argument types of the C member's prototype in the header,
+   and every exported C function a setter stores by name has exactly the member's function type (or is the C-side setter
+   taking a parameter of that type); the function a setter stores for a NAME is PREFIX ++ name.  (The field's own CFUNCTYPE is compared with the prototype by the mirror theorems.) *)
+Theorem C18_callback_signatures :
+  callback_mismatch tables0 c_structs py_classes py_props py_functypes py_setter_callbacks c_fun_types = [] /\
+  named_callback_mismatch named_callback_prefixes py_named_callbacks = [] /\
+  (8 <= length (callback_props py_classes py_props))%nat.
+Proof. split; [vm_compute; reflexivity | split; [vm_compute; reflexivity | apply Nat.leb_le; vm_compute; reflexivity]]. Qed.
+Print Assumptions C18_callback_signatures.
+
+(* Documentation (docs/*.md, regenerated): every option string the docs tell the user to assign (sim.<path> = "name") is
+   accepted by the python setter (after the setter's normalisation) / is a named built-in callback; every C constant the
+   docs assign (r-><path> = REB_X) is a constant of that option's enum; where the docs show the C and the python form side by
+   side, the python name selects the value of that C constant (resp. stores that C function); every REB_<OPTION>_* token
+   anywhere in the docs is a real enum constant -- except the listed, reported documentation defects. *)
+Theorem C18_documented_options :
+  ddevs_within (doc_deviations tables0 doc_rules c_enums c_decls py_dicts py_named_callbacks
+                               doc_py_options doc_c_options doc_c_callbacks doc_pairs doc_enum_tokens)
+               known_doc_deviations = true /\
+  (30 <= length doc_py_options)%nat /\ (30 <= length doc_pairs)%nat.
+Proof. split; [vm_compute; reflexivity | split; apply Nat.leb_le; vm_compute; reflexivity]. Qed.
+Print Assumptions C18_documented_options.
 
 (* Every clibrebound.<symbol> the (imported) python modules reference is declared DLLEXPORT in rebound.h (or is a listed
    exception declared in the named header); dynamic lookups have a matching exported family; excluded modules are
